@@ -33,9 +33,12 @@ def registered():
 
 
 def _one(item):
+    from ..watchdog import Timeout, limit
+
     try:
-        return _one_inner(item)
-    except Exception as e:  # noqa: BLE001 - unexpected behaviour of the code under test
+        with limit(120):
+            return _one_inner(item)
+    except (Exception, Timeout) as e:  # noqa: BLE001 - unexpected behaviour of the code under test
         tag, data, idx = item
         return {"viol": [(PROP, f"C05|plain|unexpected-exception|{type(e).__name__}", f"{tag}: {type(e).__name__}: {e}",
                           {"engine": "plain", "tag": tag, "bytes": data}, len(data))], "unsupported": 0, "ok": 0}
@@ -92,8 +95,13 @@ def run(rep, tier):
     for i, v in enumerate(_VALUES):
         for tag, b in corpus.pickles_of(v):
             items.append((f"plain[{i}]/{tag}", b, i))
-    with mp.get_context("fork").Pool(ncpu()) as pool:
-        for r in pool.imap_unordered(_one, items, chunksize=64):
+    from .. import par
+
+    if True:
+        for r in par.pmap_unordered(_one, items, chunksize=64):
+            if isinstance(r, par.WorkerDied):
+                r = {"viol": [(PROP, "C05|plain|worker-process-died", f"{r.why} while checking {r.item[0]}",
+                               {"engine": "plain", "tag": r.item[0], "bytes": r.item[1]}, 0)], "unsupported": 0, "ok": 0}
             rep.add("plain_pickles", 1)
             rep.add("plain_roundtrip_ok", r["ok"])
             rep.add("plain_unsupported_opcode(FLOAT)", r["unsupported"])
